@@ -115,7 +115,12 @@ class Env:
         if k == "np":
             v = o[2] if len(o) > 2 else 3
             return np.dtype(self.dtypes[o[1]]).type(v if o[1] != 11 else bool(v))
-        return {"none": None, "str": "abc", "ellipsis": ...}[o[1] if len(o) > 1 else "none"]
+        from fractions import Fraction as _Fr
+
+        return {"none": None, "str": "abc", "ellipsis": ..., "list": [1, 2], "bytes": b"3", "numstr": "3", "dtypestr": "f4",
+                "arr0": np.array(2), "arr1": np.array([1, 2]), "complex": 1j, "fraction": _Fr(1, 2), "dict": {"a": 1},
+                "set": {1}, "gen": (i for i in range(2)), "varlist": [self.spox.argument(self.spox.Tensor(np.int64, ()))],
+                "type": int}[o[1] if len(o) > 1 else "none"]
 
     def err_name(self, e):
         return type(e).__name__
@@ -410,16 +415,22 @@ def value_case(env: Env, opname, oa, ob, settings=(True, True), const_path=False
             y = None if xb is None else np.broadcast_to(xb, got.shape)[idx]
             tkind = "float" if want.dtype.kind == "f" else "int"
             key = f"{opname}:{tkind}:wrong-value"
-            if opname == "floordiv" and tkind == "float" and all(
-                    classify_floordiv_float(np, np.broadcast_to(xa, got.shape)[tuple(i)],
-                                            np.broadcast_to(xb, got.shape)[tuple(i)], got[tuple(i)], want[tuple(i)], want.dtype)
-                    for i in np.argwhere(~ok)):
-                key = "floordiv:float:rounded-quotient"
-            elif opname == "floordiv" and tkind == "float" and all(
-                    classify_floordiv_nonfinite(np, np.broadcast_to(xa, got.shape)[tuple(i)],
-                                                np.broadcast_to(xb, got.shape)[tuple(i)], want.dtype)
-                    for i in np.argwhere(~ok)):
-                key = "floordiv:float:non-finite-or-underflow"
+            if opname == "floordiv" and tkind == "float":
+                # both faces of Floor(Div) vs numpy's fmod-based floor_divide are listed findings; a grid may show both
+                bx, by = np.broadcast_to(xa, got.shape), np.broadcast_to(xb, got.shape)
+                fam = []
+                for i in np.argwhere(~ok):
+                    i = tuple(i)
+                    if classify_floordiv_float(np, bx[i], by[i], got[i], want[i], want.dtype):
+                        fam.append("floordiv:float:rounded-quotient")
+                    elif classify_floordiv_nonfinite(np, bx[i], by[i], want.dtype):
+                        fam.append("floordiv:float:non-finite-or-underflow")
+                    else:
+                        fam.append(None)
+                        x, y, idx = bx[i], by[i], i
+                        break
+                if None not in fam:
+                    key = "floordiv:float:rounded-quotient" if "floordiv:float:rounded-quotient" in fam else fam[0]
             elif opname == "floordiv" and tkind == "int" and (x < 0) != (y < 0) and got[idx] == want[idx] + 1:
                 key = "floordiv:int:opposite-signs-nonzero-remainder"
             out.append((key, f"{describe(env, opname, oa, ob)} at a={x!r}, b={y!r}: spox {got[idx]!r}, numpy {want[idx]!r} "
@@ -1378,6 +1389,11 @@ def run(ck: core.Check):
     # ------------------------------------------------------------------ correspondence: dispatch decisions
     scal = [["int", 3], ["int", -1], ["int", 1000], ["int", 2 ** 40], ["float"], ["bool", True],
             ["other", "none"], ["other", "str"], ["other", "ellipsis"]] + [["np", d] for d in range(ND)]
+    # malformed operands of other shapes: containers, numeric-looking strings, bytes, arrays, non-real numbers
+    JUNK = ["list", "bytes", "numstr", "dtypestr", "arr0", "arr1", "fraction", "dict", "set", "gen", "varlist", "type"]
+    # (a Python complex is not among them: with promotion on, the Var is first cast to complex128 - which ONNX Cast refuses,
+    #  InferenceError - before the constant is looked at; operand kinds the model does not describe are left out)
+    scal += [["other", k] for k in JUNK]
     # constants equal to a neutral element of some operator (0, 1, -1, 0.0, 1.0, -0.0, False) and numpy scalars 0 / 1
     scal += [["int", 0], ["int", 1], ["float", 0.0], ["float", 1.0], ["float", -0.0], ["float", -1.0], ["bool", False]]
     scal += [["np", d, v] for d in (2, 3, 9, 10, 4) for v in (0, 1)]
@@ -1385,7 +1401,8 @@ def run(ck: core.Check):
     for d in range(ND):
         for s in scal:
             pairs.append((["var", d], s))
-            pairs.append((s, ["var", d]))
+            if not (s[0] == "other" and len(s) > 1 and s[1] in ("arr0", "arr1")):
+                pairs.append((s, ["var", d]))  # (an ndarray on the left is numpy's own dispatch, not the dispatcher's)
     cases = []
     for st in SETTINGS:
         for opname in BIN + LOGIC:
@@ -1475,7 +1492,10 @@ def run(ck: core.Check):
                 value_cases.append((opname, ["var", a], ["var", b]))
         for d in NUM:
             for s in [["int", 2], ["int", -7], ["int", -1], ["int", 3], ["float", 10.0], ["float", 0.5], ["float", -2.5], ["bool", True],
-                      ["int", 0], ["int", 1], ["float", 0.0], ["float", 1.0], ["float", -0.0], ["float", -1.0], ["bool", False]]:
+                      ["int", 0], ["int", 1], ["float", 0.0], ["float", 1.0], ["float", -0.0], ["float", -1.0], ["bool", False],
+                      # non-finite / out-of-range / denormal Python floats, ints at the edges of the small integer types
+                      ["float", float("inf")], ["float", float("nan")], ["float", 1e40], ["float", 1e-320],
+                      ["int", 127], ["int", -128], ["int", 255]]:
                 value_cases.append((opname, ["var", d], s))
                 value_cases.append((opname, s, ["var", d]))
             for s in [["np", 9, 0], ["np", 9, 1], ["np", 3, 0], ["np", 3, 1], ["np", 10, 1]]:
@@ -1527,6 +1547,21 @@ def run(ck: core.Check):
         opname, a, b = job
         dt_a = env.dtypes[a]
         xs = grid(np, dt_a)
+        if isinstance(b, tuple):
+            # a Python int on the right ("r") or on the left ("l") of an integer Var: theorems arith_scalar_right/left
+            side, v = b
+            vv = grid(np, dt_a, divisor=(opname == "floordiv" and side == "l"))
+            if opname == "floordiv" and side == "l":
+                vv = vv[vv != -1]
+            va = env.spox.argument(env.spox.Tensor(np.dtype(dt_a), ("N",)))
+            with env.fut.operator_overloading(env.op, type_promotion=True):
+                rr = PYOP[opname](va, v) if side == "r" else PYOP[opname](v, va)
+            got, _ = env.run_model(rr, {"a": va}, {"a": vv})
+            if side == "r":
+                return ({"settings": [True, True], "op": opname, "a": ["var", a], "b": ["int", v],
+                         "xs": [int(t) for t in vv], "ys": [v]}, [[int(t)] for t in got])
+            return ({"settings": [True, True], "op": opname, "a": ["int", v], "b": ["var", a],
+                     "xs": [v], "ys": [int(t) for t in vv]}, [[int(t) for t in got]])
         if opname == "neg":
             va = env.spox.argument(env.spox.Tensor(np.dtype(dt_a), ("N",)))
             with env.fut.operator_overloading(env.op, type_promotion=True):
@@ -1551,6 +1586,12 @@ def run(ck: core.Check):
 
     jobs = [(opname, a, b) for opname in ["add", "sub", "mul", "floordiv"] for a in INT for b in INT]
     jobs += [("neg", a, None) for a in range(4)]
+    for opname in ["add", "sub", "mul", "floordiv"]:
+        for a in INT:
+            signed = np.dtype(env.dtypes[a]).kind == "i"
+            for v in ([2, -3, 7, 1] if signed else [2, 3, 7, 1]):
+                jobs.append((opname, a, ("r", v)))
+                jobs.append((opname, a, ("l", v)))
     for job, res in zip(jobs, forked_batch(ort_grid, jobs)):
         if res[0] != "ok":
             ck.broken("correspondence", "C17 integer semantics (eval) vs onnxruntime", f"{job}: {res}")
